@@ -480,12 +480,13 @@ def c20(run, vc):
         shutil.rmtree(wd, ignore_errors=True)
     # the implementation: P processes started together, T threads each, N rounds of every entry point
     n, t, p = (48, 4, 2) if tier == "quick" else (512, 16, 4)
+    bulk = 65536                                        # per thread: 2^19 generators in the quick tier (2 x 4 threads), 2^22 in the thorough tier (4 x 16)
     outs = []
     procs = []
     for i in range(p):
         op = os.path.join(vc.WORK, "c20_proc%d.ndjson" % i)
         outs.append(op)
-        procs.append(subprocess.Popen([vc.bin_path(), "record", "--driver", "rng", "--events", str(n), "--threads", str(t), "--proc", str(i + 1), "--out", op],
+        procs.append(subprocess.Popen([vc.bin_path(), "record", "--driver", "rng", "--events", str(n), "--threads", str(t), "--proc", str(i + 1), "--out", op, "--bulk", str(bulk)],
                                       stdout=subprocess.PIPE, stderr=subprocess.STDOUT))
     for pr in procs:
         pr.wait(timeout=3000)
@@ -498,6 +499,21 @@ def c20(run, vc):
             for line in open(op):
                 f.write(line)
                 calls += line.startswith('{"entry"') or '"ev":"Call"' in line
+    # the volume run: raw fingerprints of all processes merged, one GenBulk event for TLC
+    fps = set()
+    nfp = 0
+    for op in outs:
+        raw = open(op + ".fps", "rb").read()
+        nfp += len(raw) // 16
+        fps.update(raw[i:i + 16] for i in range(0, len(raw), 16))
+        os.remove(op + ".fps")
+    bulk_ev = {"ev": "GenBulk", "count": nfp, "distinct": len(fps)}
+    run.extra_cov["bulk_generators"] = bulk_ev
+    if nfp < p * t * bulk:
+        raise vc.ToolError("vacuity: the hook reported %d generators for %d bulk calls" % (nfp, p * t * bulk))
+    del fps
+    with open(merged, "a") as f:
+        f.write(json.dumps(bulk_ev) + "\n")
     nev = sum(1 for _ in open(merged))
     if tier == "quick":
         ok, at, ev, dt, states = vc.validate_trace("Trace_Rng", merged, "c20")
@@ -525,6 +541,12 @@ def c20(run, vc):
         ok, at, ev, dt, states = vc.validate_trace("Trace_RngSorted", sp, "c20s", timeout=7000)
         spec_used = "Trace_RngSorted"
         nev = len(ks)
+        if ok:
+            bp = os.path.join(vc.WORK, "c20_bulk.ndjson")
+            with open(bp, "w") as f:
+                f.write(json.dumps(bulk_ev) + "\n")
+            ok, at, ev, dt2, st2 = vc.validate_trace("Trace_Rng", bp, "c20b")
+            spec_used = "Trace_RngSorted + Trace_Rng(GenBulk)"
     run.stages.append({"stage": "trace", "driver": "rng", "spec": spec_used, "processes": p, "threads": t, "rounds": n, "events": nev, "accepted": ok, "tlc_wall_s": round(dt, 1)})
     run.states += states
     run.transitions += states
